@@ -763,7 +763,8 @@ Lemma exec_for_unfold f P e var rg body :
    | None => ret (SigNone, e)
    | Some (l, rg') =>
        let* e1 := update_var var l e in
-       let* (sig, e2) := exec_block f P e1 body in
+       let* (sig, e2') := exec_block f P ([] :: e1) body in
+       let e2 := tl e2' in
        match sig with
        | SigBreak => ret (SigNone, e2)
        | SigReturn v => ret (SigReturn v, e2)
@@ -873,8 +874,8 @@ Qed.
 Theorem for_iteration_yields f P e var rg body s l rg' s1 e1 s2 e2 s3 :
   ranger_next rg s = (Ok (Some (l, rg')), s1) ->
   update_var var l e s1 = (Ok e1, s2) ->
-  exec_block f P e1 body s2 = (Ok (SigNone, e2), s3) ->
-  exec_for (S f) P e var rg body s = exec_for f P e2 var rg' body s3 /\ S (st_yields s) <= st_yields s3.
+  exec_block f P ([] :: e1) body s2 = (Ok (SigNone, e2), s3) ->
+  exec_for (S f) P e var rg body s = exec_for f P (tl e2) var rg' body s3 /\ S (st_yields s) <= st_yields s3.
 Proof.
   intros H1 H2 H3. split.
   - rewrite exec_for_unfold. unfold bindM. now rewrite H1, H2, H3.
